@@ -155,3 +155,8 @@ func (c *Cmd) deliver(out []byte) {
 }
 
 var _ = bytes.NewBuffer
+
+// CommandContext: the context is ignored (simulated commands cannot be cancelled from outside).
+func CommandContext(ctx interface{ Done() <-chan struct{} }, name string, arg ...string) *Cmd {
+	return Command(name, arg...)
+}
